@@ -411,9 +411,37 @@ Definition dom_C05 (t : rtype) : bool := c05_dom t.
 Definition known_C05 (L : lang) (c : c05_cfg) (g : list str) (t : rtype) : option c05_class :=
   c05_known L (c05_m c) g t.
 
-(* use sites: Kotlin's @JvmInline value classes translate the alias target with an EMPTY generics list *)
-Definition c05_uses_param (g : list str) (t : rtype) : bool :=
-  existsb (fun id => mem_str id g) (c05_tree_ids (c05_core false [] g t)).
+(* ---- use sites: where a type expression stands in an item, and under which generics list ---- *)
+Inductive c05_site :=
+| C05SField            (* struct field / struct-variant field: the generics of the struct / enum *)
+| C05SAlias            (* alias target (also a newtype struct): the generics of the alias *)
+| C05SInlineAlias      (* alias target of a Kotlin @JvmInline value class *)
+| C05SPayload          (* tuple-variant payload: the generics of the enum *)
+| C05SConst.           (* const type: no generics *)
+Definition c05_site_generics (s : c05_site) (g : list str) : list str :=
+  match s with C05SConst => [] | _ => g end.
+
+(* a generic parameter of g survives in the translated type (not mapped away) *)
+Definition c05_uses_param (inst : bool) (m : c05_tmap) (g : list str) (t : rtype) : bool :=
+  existsb (fun id => mem_str id g) (c05_tree_ids (c05_core inst m g t)).
+
+Inductive c05_site_class :=
+| C05S_type (k : c05_class)
+| C05S_kotlin_inline_generic.   (* Kotlin formats the target of a value class with an EMPTY generics list: the parameter gets the prefix *)
+
+Definition known_C05_site (L : lang) (c : c05_cfg) (s : c05_site) (g : list str) (t : rtype) : option c05_site_class :=
+  match known_C05 L c (c05_site_generics s g) t with
+  | Some k => Some (C05S_type k)
+  | None =>
+    match L, s with
+    | Kotlin, C05SInlineAlias =>
+      if match c05_pre c with [] => false | _ => true end && c05_uses_param false (c05_m c) g t
+      then Some C05S_kotlin_inline_generic else None
+    | _, _ => None
+    end
+  end.
+Definition good_C05_site (L : lang) (c : c05_cfg) (s : c05_site) (g : list str) (t : rtype) (obs : option texp) : bool :=
+  good_C05 L c (c05_site_generics s g) t obs.
 
 (* ------------------------------------------------------------------------------------------ *)
 (* Part C: the primitive table                                                                  *)
